@@ -14,7 +14,15 @@ use std::time::Instant;
 
 use serde_json::{Value, json};
 
-pub const VERIF_ROOT: &str = "/verif";
+/// Root of the verification tree: $ZV_ROOT (set by ./check), else derived from the engine's own path
+/// (<root>/target/harness/release/<bin>), else /verif. Makes a snapshot of /verif self-contained.
+pub fn verif_root() -> String {
+    if let Ok(r) = std::env::var("ZV_ROOT") { if !r.is_empty() { return r; } }
+    if let Ok(exe) = std::env::current_exe() {
+        if let Some(r) = exe.ancestors().nth(4) { if r.join("known_findings.json").exists() { return r.display().to_string(); } }
+    }
+    "/verif".to_string()
+}
 
 #[derive(Clone, Copy, PartialEq, Eq, Debug)]
 pub enum Tier {
@@ -229,7 +237,7 @@ pub struct KnownFinding {
 }
 
 pub fn load_known_findings(property: &str) -> Vec<KnownFinding> {
-    let path = format!("{VERIF_ROOT}/known_findings.json");
+    let path = format!("{}/known_findings.json", verif_root());
     let txt = match std::fs::read_to_string(&path) {
         Ok(t) => t,
         Err(_) => return vec![],
@@ -321,7 +329,7 @@ pub fn finish(ctx: &Ctx, cov: Coverage) -> ! {
     for (id, (n, what)) in &known_hits {
         println!("KNOWN-FINDING: property={} id={} cases={} {}", ctx.id, id, n, what);
     }
-    let replay_dir = format!("{VERIF_ROOT}/replays");
+    let replay_dir = format!("{}/replays", verif_root());
     let mut lines = 0;
     if ctx.replay.is_none() {
         let _ = std::fs::create_dir_all(&replay_dir);
@@ -364,8 +372,8 @@ pub fn finish(ctx: &Ctx, cov: Coverage) -> ! {
             "coverage": Value::Object(c), "assumptions": cov.assumptions, "wall_s": wall,
             "violations": unlisted_total as i64,
         });
-        let _ = std::fs::create_dir_all(format!("{VERIF_ROOT}/evidence"));
-        let p = format!("{VERIF_ROOT}/evidence/{}.json", ctx.id);
+        let _ = std::fs::create_dir_all(format!("{}/evidence", verif_root()));
+        let p = format!("{}/evidence/{}.json", verif_root(), ctx.id);
         std::fs::write(&p, serde_json::to_string_pretty(&ev).unwrap() + "\n")
             .unwrap_or_else(|e| machinery_error(&format!("cannot write evidence: {e}")));
     }
